@@ -1,6 +1,7 @@
 import EinxModel.Driver.Util
 import EinxModel.Driver.IR
 import EinxModel.Extracted.Stb
+import EinxModel.Extracted.Unravel
 /-!
 Driver requests that *run the translated definitions* of `Extracted/Stb.lean` (regenerated from /repo by
 `tools/extract/stb.py`) and the reading of Python's builtins (`Basic/PyPrelude.lean`), so that the check can
@@ -10,6 +11,7 @@ kind `xlate_stb`   {"ein": [[name, len], …], "eout": […], "unitary": bool}
                    → `Stb.squeezeTransposeBroadcast` on a tensor in register 0 of shape `lens ein`
 kind `xlate_diag`  {"shape": […], "axes_in": [ints], "axis_out": int} → `Stb.diagonalInner`
 kind `xlate_ids`   {"names": [...]} → `Stb.toAxisIds`
+kind `xlate_unravel` {"k": nat, "sizes": […], "axis": nat|null} → `Unravel.unravelKernel`
 kind `py_prelude`  {"fn": …, …} → one function of `Basic/PyPrelude.lean`
 -/
 open Lean
@@ -78,6 +80,11 @@ def handle (j : Json) : R Json := do
   | "xlate_ids" => do
     let ns ← strsF j "names"
     pure (Json.mkObj [("ids", jArr ((Stb.toAxisIds (ns.map (fun n => ⟨n, 2⟩))).map (fun p => jArr [Json.str p.1, jNat p.2])))])
+  | "xlate_unravel" => do
+    let axis ← (match fldOpt j "axis" with
+      | none | some Json.null => pure none
+      | some v => do pure (some (← asNat v)) : R (Option Nat))
+    pure (exJson (Unravel.unravelKernel (← natF j "k") (← natsF j "sizes") axis) (fun v => [("v", jNats v)]))
   | "py_prelude" => handlePrelude j
   | k => throw s!"unknown kind {k}"
 
